@@ -6,7 +6,7 @@
 use crate::common::*;
 use std::collections::BTreeMap;
 
-pub const CORPUS: [&str; 60] = [
+pub const CORPUS: [&str; 62] = [
     "a |> f",
     "a |> f ?? g => h",
     "a => f <| b <= g !> h",
@@ -71,6 +71,11 @@ pub const CORPUS: [&str; 60] = [
     "Vec < u8 |> |b| !b, c",
     "it =>[] Vec<u8, A>, c",
     "a ^@ Map < K, |x, y| x, b",
+    // 60, 61: invocations that are MISCONFIGURED for their related config (a `then` handler in a try macro, futures_crate_path in a
+    // macro that is not async): the expansion stops with the documented configuration rejection — that diagnostic is their output,
+    // and what they leave behind must not reach any later expansion
+    "a |> f, b, then => h",
+    "futures_crate_path(::futures) a |> f, b",
 ];
 
 /// the unit list is computed in a CHILD process: finding out which (input, config) pairs are accepted means expanding them, and that
@@ -417,6 +422,7 @@ fn conc(args: &[String]) {
     let mut capped = false;
     let mut max_points = 0usize;
     let mut k = 0usize;
+    let mut uncontrolled = 0u64;
     for &(i1, c1) in &us {
         for &(i2, c2) in &us {
             k += 1;
@@ -430,7 +436,10 @@ fn conc(args: &[String]) {
             let b2 = base[&(i2, c2)].clone();
             let mut first_bad: Option<Vec<usize>> = None;
             POINTS.store(0, SeqCst);
-            let st = vsched::explore(body, Some("main"), Some(pbound), 400_000, |_ex, script| {
+            let st = vsched::explore(body, Some("main"), Some(pbound), 400_000, |ex, script| {
+                if ex.uncontrolled {
+                    uncontrolled += 1;
+                }
                 let o = OUT.lock().unwrap().clone();
                 if (o.0 != b1 || o.1 != b2) && first_bad.is_none() {
                     first_bad = Some(script.to_vec());
@@ -459,7 +468,8 @@ fn conc(args: &[String]) {
     }
     join_impl::verif_hook::set(None);
     println!(
-        "{{\"mode\":\"c20conc\",\"units\":{},\"pairs\":{},\"pbound\":{},\"schedules\":{},\"decisions\":{},\"states\":{},\"yield_points_per_execution\":{},\"capped\":{},\"expansions\":{},\"inputs\":{},\"nviol\":{},\"viols\":[{}],\"samples\":[],\"secs\":{:.1}}}",
+        "{{\"mode\":\"c20conc\",\"uncontrolled\":{},\"units\":{},\"pairs\":{},\"pbound\":{},\"schedules\":{},\"decisions\":{},\"states\":{},\"yield_points_per_execution\":{},\"capped\":{},\"expansions\":{},\"inputs\":{},\"nviol\":{},\"viols\":[{}],\"samples\":[],\"secs\":{:.1}}}",
+        uncontrolled,
         us.len(),
         pairs,
         pbound,
